@@ -7,8 +7,31 @@
 
 namespace vf {
 
+// Class "global:deep-1d" (one case in forty, chosen from the last byte, consumes nothing): a one-dimensional Global grid of an exponentially growing nested rule at depth 7-10,
+// i.e. 255-2047 nodes in one direction. Every other generator keeps Global grids below 1000 nodes per direction (GridState::enforce_cap), this class is where the range beyond is decided.
+static bool deep_1d_class(Src &s, Ctx &ctx) {
+    if (!(s.n >= 3 && (s.p[s.n - 1] % 40) == 17)) return false;
+    static const TypeOneDRule rules[] = {rule_clenshawcurtis, rule_clenshawcurtis0, rule_fejer2};
+    TypeOneDRule rule = rules[s.p[0] % 3]; int depth = 7 + (s.p[1] % 4);
+    auto nodes = [&](int l) { return rule == rule_clenshawcurtis ? (1 << l) + 1 : (2 << l) - 1; };
+    // known finding C01-global-1d-lagrange-overflow: with 1023 or more nodes in one direction evaluate() returns NaN
+    while (nodes(depth) >= 1000 && ctx.excl("C01-global-1d-lagrange-overflow")) depth--;
+    TasmanianSparseGrid g; g.makeGlobalGrid(1, 1, depth, type_level, rule);
+    ValueModel vm; auto pts = g.getNeededPoints(); int n = g.getNumNeeded(); std::vector<double> v((size_t)n);
+    for (int i = 0; i < n; i++) v[(size_t)i] = vm(&pts[(size_t)i], 1, 0, 0);
+    g.loadNeededValues(v);
+    { std::ostringstream o; o << "global d=1 out=1 depth=" << depth << " type=level rule=" << rule_name(rule) << " (class deep-1d, " << n << " nodes)"; ctx.log(o.str()); }
+    std::vector<double> y; g.evaluateBatch(pts, y);
+    for (int i = 0; i < n; i++) ctx.close("C01.nodal", y[(size_t)i], v[(size_t)i], std::max(1.0, std::fabs(v[(size_t)i])), 1e-9, [&]() { return "deep 1-D global grid: evaluateBatch at loaded point #" + std::to_string(i) + " (" + decd(pts[(size_t)i]) + ")"; });
+    std::vector<double> y1; g.evaluate(std::vector<double>{pts[(size_t)(n / 3)]}, y1);
+    ctx.close("C01.nodal", y1[0], v[(size_t)(n / 3)], std::max(1.0, std::fabs(v[(size_t)(n / 3)])), 1e-9, [&]() { return std::string("deep 1-D global grid: evaluate at a loaded point"); });
+    ctx.count("nodal-values", n + 1); ctx.label("fam:global"); ctx.label("global:deep-1d"); ctx.nontrivial = true;
+    return true;
+}
+
 void check_C01(Src &s, Ctx &ctx) {
-    SpecOpts so; so.nonnested = false; so.custom = false; so.min_outs = 1; so.max_outs = 3; so.cap = cfg().tier ? 1500 : 350;
+    if (deep_1d_class(s, ctx)) return;
+    SpecOpts so; so.nonnested = false; so.custom = false; so.min_outs = 1; so.max_outs = 3; so.cap = cfg().tier ? 500 : 350;
     GridState st; st.cap = so.cap; st.ctx = &ctx;
     st.spec = decode_spec(s, so); st.vm.decode(s);
     make_grid(st.g, st.spec, so.cap);
